@@ -15,6 +15,7 @@ type TExpr struct {
 	GoT  types.Type // optional
 	Cell *CellRef   // the identifier denotes the content of a heap cell
 	Ghost string    // a ghost heap component (must be indexed)
+	New   bool      // known to be allocated during the current API call (reads go to the new heap)
 	Old   bool      // known to denote an object that existed before the current API call (reads go to the old heap)
 }
 
@@ -29,6 +30,8 @@ type Scope struct {
 	oldHook func(s *Scope, n *NOld) (TExpr, bool)
 	heapFn  func(comp, sort string) string // overrides heap variable reference (e.g. snapshot)
 	pdepth  int
+	learnConstOnly bool
+	known   map[string]byte // reference term -> 'N' (allocated during this API call, or nil) / 'O' (older)
 }
 
 func (s *Scope) depth() int {
@@ -45,6 +48,50 @@ func (s *Scope) child() *Scope {
 	return &Scope{vars: map[string]TExpr{}, parent: s, eng: s.eng, il: s.il, useOld: s.useOld, oldHook: s.oldHook, heapFn: s.heapFn}
 }
 
+func (s *Scope) knownOf(ref string) byte {
+	for c := s; c != nil; c = c.parent {
+		if k, ok := c.known[ref]; ok {
+			return k
+		}
+	}
+	return 0
+}
+
+// learn records new(e) / newOrNil(e) / isold(e) conjuncts of an assumed formula (e an arbitrary reference expression).
+func (s *Scope) learn(hyp Node) {
+	switch x := hyp.(type) {
+	case *NBinary:
+		if x.Op == "&&" {
+			s.learn(x.X)
+			s.learn(x.Y)
+		}
+	case *NCall:
+		if len(x.Args) != 1 {
+			return
+		}
+		var k byte
+		switch x.Fn {
+		case "new", "newOrNil":
+			k = 'N'
+		case "isold":
+			k = 'O'
+		default:
+			return
+		}
+		te, err := s.elab(x.Args[0])
+		if err != nil {
+			return
+		}
+		if s.learnConstOnly && strings.Contains(refOf(te), "@") {
+			return // state-dependent term: only valid within the clause that states it
+		}
+		if s.known == nil {
+			s.known = map[string]byte{}
+		}
+		s.known[refOf(te)] = k
+	}
+}
+
 func (s *Scope) lookup(name string) (TExpr, bool) {
 	for c := s; c != nil; c = c.parent {
 		if v, ok := c.vars[name]; ok {
@@ -55,12 +102,28 @@ func (s *Scope) lookup(name string) (TExpr, bool) {
 }
 
 // hsel reads heap component comp at ref in the state the scope denotes.
+func (s *Scope) hselNew(comp, sort, ref string) string {
+	v := s.il.mvar(comp, sort)
+	v.Comp = comp
+	nw := cur(v)
+	if s.useOld {
+		nw = old(v)
+	}
+	if s.heapFn != nil {
+		nw = s.heapFn(comp, sort)
+	}
+	return fmt.Sprintf("(select %s %s)", nw, ref)
+}
+
 func (s *Scope) hsel(comp, sort, ref string, knownOld bool) string {
 	if s.il == nil {
 		panic(elabErr("heap access (" + comp + ") in a context without heap"))
 	}
-	if knownOld {
+	if knownOld || s.knownOf(ref) == 'O' {
 		return fmt.Sprintf("(select %s %s)", heapOldName(s.il, comp, sort), ref)
+	}
+	if s.knownOf(ref) == 'N' {
+		return s.hselNew(comp, sort, ref)
 	}
 	return heapSel(s.il, comp, sort, ref, s.useOld, s.heapFn)
 }
@@ -86,10 +149,11 @@ func oldNames(n Node, out map[string]bool) {
 func (s *Scope) withOld(hyp Node) *Scope {
 	names := map[string]bool{}
 	oldNames(hyp, names)
-	if len(names) == 0 {
+	c := s.child()
+	c.learn(hyp)
+	if len(names) == 0 && len(c.known) == 0 {
 		return s
 	}
-	c := s.child()
 	for n := range names {
 		if v, ok := s.lookup(n); ok {
 			v.Old = true
@@ -451,6 +515,9 @@ func (s *Scope) elField(n *NField) TExpr {
 					s.fail("no field %s in %s", n.Name, t)
 				}
 				comp, srt := s.eng.sorts.fieldComp(p.Elem(), idx)
+				if x.New && !x.Old {
+					return TExpr{E: s.hselNew(comp, srt, x.E), Sort: s.eng.sorts.sortOf(ft).Sort, GoT: ft}
+				}
 				return TExpr{E: s.hsel(comp, srt, x.E, x.Old), Sort: s.eng.sorts.sortOf(ft).Sort, GoT: ft, Old: x.Old}
 			}
 		}
